@@ -316,7 +316,7 @@ pub fn parse_party_identifier(input: &str) -> Result<Option<String>, ParseError>
             parse_swift_chars(id, "party identifier")?;
             return Ok(Some(format!("{}/{}", code, id)));
         }
-    } else if remaining.len() <= 34 {
+    } else if !remaining.is_empty() && remaining.len() <= 34 {
         // Simple /34x format (no additional slash)
         parse_swift_chars(remaining, "party identifier")?;
         return Ok(Some(remaining.to_string()));
